@@ -242,10 +242,67 @@ def r2(ctx):
                  f'other methods read self.{attr}', key=f'stale-snapshot:{attr}', what=f'AlleleResolver.__init__: self.{attr} snapshotted before `{loc}` is adjusted')
 
 
+def cache_name_model(ctx):
+    """the cache file name fetchChromosome computes, obtained by running the method under the interpreter with caching on (no cache file present) for every combination of
+    phased / sample selection / ignored conversions / region start / region end: two configurations that select different sites must not share a cache file.
+    (ok, cases, witness) or None outside the interpreted subset."""
+    from ..consteval import module_scope, Evaluator, Instance, Unfoldable, Raised
+    try:
+        env = module_scope(ctx.ix, ALLELES)
+        cls = env['AlleleResolver']
+        names = {}
+        n = 0
+        for phased, select, ignore, rs, re_ in itertools.product((True, False), (None, ('S1',), ('S1', 'S2')), (None, (('C', 'T'),), (('C', 'T'), ('G', 'A'))), (None, 500), (None, 900)):
+            n += 1
+            seen = []
+
+            def hook(ev, call, env_, seen=seen):
+                d = dotted(call.func) or ''
+                if d.split('.')[-1] == 'VariantFile':
+                    return Instance(attrs={'model': 'vcf'})
+                if isinstance(call.func, ast.Attribute) and call.func.attr == 'fetch':
+                    return []
+                if d in ('os.path.abspath',):
+                    return ev.ev(call.args[0], env_)
+                if d in ('os.path.exists',):
+                    return False
+                if d in ('os.makedirs', 'print'):
+                    return None
+                if d in ('self.write_cache', 'self.read_cached'):
+                    seen.append(ev.ev(call.args[0], env_))
+                    return None
+                return NotImplemented
+            e = dict(env)
+            table = Evaluator(e, budget=2000).ev(ast.parse('get_allele_dict()', mode='eval').body, e)
+            res = Instance(cls, attrs={'locationToAllele': table, 'phased': phased, 'select_samples': None if select is None else set(select), 'ignore_conversions': None if ignore is None else set(ignore),
+                                       'use_cache': True, 'verbose': False, 'region_start': rs, 'region_end': re_, 'vcffile': 'model.vcf.gz', 'lazyLoad': False})
+            e['res'] = res
+            Evaluator(e, budget=100000, call_hook=hook).ev(ast.parse("res.fetchChromosome('model.vcf.gz', 'chr1')", mode='eval').body, e)
+            if len(seen) != 1:
+                return None
+            cfg = {'phased': phased, 'selected samples': select, 'ignored conversions': ignore, 'region start': rs, 'region end': re_}
+            if seen[0] in names and names[seen[0]] != cfg:
+                return (False, n, {'cache file': seen[0], 'configuration A': names[seen[0]], 'configuration B': cfg})
+            names[seen[0]] = cfg
+        return (True, n, None)
+    except (Unfoldable, Raised):
+        return None
+    except Exception:
+        return None
+
+
+
 @rule('C18', 'C18-R3', 'cache key completeness: every configuration field read while computing a contig\'s content is part of the cache file name')
 def r3(ctx):
     ms = methods(ctx)
     f = ms['fetchChromosome']
+    # the name itself, computed by the interpreter for 72 configurations: no two of them share a cache file
+    cm = cache_name_model(ctx)
+    if cm is not None:
+        ctx.counters['interpreted_cases'] = ctx.counters.get('interpreted_cases', 0) + cm[1]
+        ctx.emit('C18-R3', cm[0], ALLELES, f, f'{cm[1]} configurations (phased x selection x ignored conversions x region start x region end) get {cm[1]} different cache file names' if cm[0] else
+                 f'two configurations that select different sites share one cache file: {cm[2]}', key='cache-name-injective', witness=cm[2],
+                 what='fetchChromosome: configurations with different content share a cache file')
     # the cache file name is whatever is handed to read_cached(); its key fields are the configuration fields in its backward slice
     # (data and control dependences), however the name is spelled or assembled
     rc = [c for c in walk_no_nested(f) if isinstance(c, ast.Call) and isinstance(c.func, ast.Attribute) and c.func.attr == 'read_cached' and c.args]
